@@ -75,7 +75,10 @@ class ModbusAsciiFramer(ModbusFramer):
             self._header['uid'] = int(self._buffer[1:3], 16)
             self._header['lrc'] = int(self._buffer[end - 2:end], 16)
             data = a2b_hex(self._buffer[start + 1:end - 2])
-            return checkLRC(data, self._header['lrc'])
+            if checkLRC(data, self._header['lrc']):
+                return True
+            # drop the corrupt frame so that it cannot block the frames after it
+            self._buffer = self._buffer[end + 2:]
         return False
 
     def advanceFrame(self):
